@@ -492,6 +492,15 @@ func (q *TransferQueue) collectBatches() {
 		// never will.
 		if err != nil && !errors.IsRetriableError(err) {
 			q.wait.Abort()
+			// Nothing will be transferred any more, but callers may
+			// still be adding objects: keep receiving them until the
+			// queue is closed by Wait(), otherwise Add() blocks
+			// forever once the channel's buffer is full.
+			for !closing {
+				if _, ok := <-q.incoming; !ok {
+					closing = true
+				}
+			}
 			break
 		}
 
